@@ -245,6 +245,12 @@ func (s *Session) bind(o *Config) {
 		return
 	}
 
+	// An error reply may echo the bind payload of the request (RFC 6120 8.3.1): only a result binds.
+	if iq.Type != stanza.IQTypeResult {
+		s.err = errors.New("iq bind failed: server replied with type '" + string(iq.Type) + "'")
+		return
+	}
+
 	// TODO Check all elements
 	switch payload := iq.Payload.(type) {
 	case *stanza.Bind:
@@ -290,6 +296,10 @@ func (s *Session) rfc3921Session() {
 
 		if s.err = s.transport.GetDecoder().Decode(&iq); s.err != nil {
 			s.err = errors.New("expecting iq result after session open: " + s.err.Error())
+			return
+		}
+		if iq.Type != stanza.IQTypeResult {
+			s.err = errors.New("session open failed: server replied with type '" + string(iq.Type) + "'")
 			return
 		}
 	}
